@@ -859,6 +859,10 @@ func (gen *Generator) GenerateAssignment(expr *SexpPair, assignPos int) error {
 		if err != nil {
 			return err
 		}
+		if i < len(rhs)-1 {
+			// the assignment as a whole has one value, the last one
+			gen.AddInstruction(PopInstr(0))
+		}
 	}
 	return nil
 }
